@@ -2,7 +2,7 @@
   C20 helper lemmas, part 8: from history (ghost) variables back to label lists, and the
   `quiet` predicate used by the lingering witness.
 -/
-import Kopf.Lemmas.C20_Reach
+import Kopf.Lemmas.C20_Returns
 namespace Kopf.C20
 
 theorem startupDone_step {cfg : Cfg} {s s' : State} {l : Label} (h : step cfg s l = some s')
@@ -53,7 +53,7 @@ theorem started_run {cfg : Cfg} : ∀ (ls : List Label) (s0 s : State), run cfg 
 
 /-- A label that is API activity / a handler call of some task. -/
 def Label.isActivity : Label → Bool
-  | .act _ | .withdraw _ => true
+  | .act _ | .withdraw _ _ => true
   | _ => false
 
 /-- An activity label is enabled only behind the `started_flag`. -/
@@ -64,7 +64,7 @@ theorem activity_needs_started {cfg : Cfg} {s s' : State} {l : Label} (hA : InvA
   | false =>
     obtain ⟨h1, h2, h3, h4, _, _⟩ := hA.notStarted hs
     cases l <;> simp [Label.isActivity] at hl
-    case withdraw i =>
+    case withdraw i ok =>
       simp only [step] at h
       split at h
       · rename_i hg; omega
@@ -121,8 +121,38 @@ theorem quiet_deadlinesAllow {cfg : Cfg} {s : State} (h : quiet s = true) (n : N
 
 theorem quiet_delay {cfg : Cfg} {s : State} (hq : quiet s = true) (hu : urgent cfg s = false)
     (hne : s.rt ≠ .exited) (n : Nat) (hn : 0 < n) :
-    step cfg s (.delay n) = some { s with now := s.now + n } := by
-  simp only [step]
-  rw [if_pos ⟨hne, hn, hu, quiet_deadlinesAllow hq n⟩]
+    stepC cfg s (.delay n) = some { s with now := s.now + n } := by
+  have hc : coopDelay cfg s n = true := coopDelay_iff.mpr ⟨hu, quiet_deadlinesAllow hq n⟩
+  simp only [stepC, hc, if_true, step]
+  rw [if_pos ⟨hne, hn⟩]
+
+/-- an observer's own stream failure (`stopping true`) can only end FAILED — a one-step reading of `rootEnd`,
+    kept as a lemma (it was listed as a property theorem `stream_failure_stops_all_partial` before) -/
+theorem observer_stream_failure_ends_failed {cfg : Cfg} {s s' : State} (r : Root) (hk : r.kind = .observer)
+    (dl : Option Nat) (hs : s.st (.root r) = .stopping true dl) (how : TS)
+    (h : step cfg s (.rootEnd r how) = some s') : how = .failed ∧ s'.st (.root r) = .failed ∧ s'.rootFailed = true := by
+  simp only [step, hk] at h
+  split at h
+  · simp only [hs] at h
+    split at h
+    · split at h
+      · rename_i hh
+        cases h
+        simp only [failTS] at hh
+        subst hh
+        exact ⟨rfl, by simp, by simp⟩
+      · cases h
+    · cases h
+  · cases h
+
+/-- while a root task has ended and `run_tasks` still waits, cooperative time cannot pass, and stopping the others is
+    enabled — a reading of `urgent` (kept as a lemma; it was listed as `root_failure_no_lingering` before) -/
+theorem root_ended_urgent {cfg : Cfg} {s : State} (r : Root) (he : (s.st (.root r)).ended = true)
+    (hw : s.rt = .waiting) : (∀ n, coopDelay cfg s n = false) ∧ (step cfg s .rtStopRoots).isSome = true := by
+  have hany : anyRootEnded s = true := (anyRootEnded_iff s).mpr ⟨r, he⟩
+  refine ⟨?_, by simp [step, hw, hany]⟩
+  intro n
+  have hu : urgent cfg s = true := by unfold urgent rtUrgent; simp [hw, hany]
+  simp [coopDelay, hu]
 
 end Kopf.C20
